@@ -140,7 +140,7 @@ def wall(tier):
     return 90 if tier == "quick" else 1500
 
 
-def rand_snap(rng, big=False):
+def rand_snap(rng, big=False, huge=False):
     snap = {}
     for n in rng.sample([0, 1, 2, 9, 100, 254], rng.randint(0 if not big else 2, 4)):
         snap[str(n)] = {"type": rng.choice([17, 18]), "version": rng.choice(["2.2.0", "1.4"]),
@@ -148,7 +148,7 @@ def rand_snap(rng, big=False):
                         "battery": rng.choice([0, 50, 100]), "heartbeat": rng.choice([0, 5]),
                         "sleeping": rng.random() < 0.3,
                         "children": {str(c): {"type": rng.choice([0, 6, 38]), "desc": rng.choice(["", "d"]),
-                                              "values": {str(t): rng.choice(["1", "20.5", "on" * (40 if big else 1)])
+                                              "values": {str(t): rng.choice(["1", "20.5", "on" * (3000 if huge else 40 if big else 1)])
                                                          for t in rng.sample([0, 2, 47], rng.randint(0, 3))}}
                                      for c in rng.sample([0, 1, 254], rng.randint(0, 3))}}
     return snap
@@ -167,6 +167,11 @@ def gen(seed: int, i: int, tier: str) -> dict:
     if rng.random() < 0.2:
         old = {}
     limit = rng.choice([None, None, 4096, 100, 37])
+    if rng.random() < 0.15:
+        # an image of several buffer sizes (tens of KiB): only there does it show whether the library hands the image
+        # to the file in one piece or in slices (several raw writes without any device limit)
+        new = rand_snap(rng, big=True, huge=True)
+        limit = rng.choice([None, None, 4096])
     return {"old": old, "new": new, "write_limit": limit,
             "tapes": {"exec.lat": [rng.choice([0, 1]) for _ in range(6)]}}
 
@@ -300,7 +305,14 @@ def run(scn) -> RunResult:
                     lres = "read-error"
                 else:
                     lres = f"error:{type(v).__name__ if v is not None else o}"
-                res.violate(PROP, "post-crash-load", f"{icls}:{lres}" + (":died-while-serialising" if in_ser else ""),
+                # how the strict prefix came about decides whether it is the recorded finding: a raw write torn by the
+                # crash, or a device that takes less than it is offered (the buffered writer then needs several raw
+                # writes). A prefix left by a crash BETWEEN complete raw writes on a device that takes everything
+                # means the library itself hands the image over in pieces - the unchanged tree never does.
+                how = ""
+                if icls == "partial-new":
+                    how = ":torn-write" if torn else ":short-writes" if scn.get("write_limit") else ":between-whole-writes"
+                res.violate(PROP, "post-crash-load", f"{icls}:{lres}{how}" + (":died-while-serialising" if in_ser else ""),
                             f"crash at raw op {'(in the serialiser)' if in_ser else k}/{nops} ({ops[k][0] if k < len(ops) else 'none'}) torn={torn}: image "
                             f"{len(image) if image is not None else None} bytes of {len(new_image)}; old={len(old_image)} "
                             f"bytes; loaded {o} {v!r}; replay with points=[[{'"ser"' if in_ser else k}, {torn if torn else 'null'}]]"[:600])
@@ -480,7 +492,8 @@ def run_session(scn) -> RunResult:
                 icls = "garbage"
             lres = ("empty-registry" if not got else "other-registry") if o == "ok" else \
                 ("read-error" if isinstance(v, PersistenceReadError) else f"error:{type(v).__name__ if v is not None else o}")
-            res.violate(PROP, "post-crash-load", f"{icls}:{lres}",
+            how = ":between-whole-writes" if icls == "partial-new" else ""  # session mode: no torn writes, no write limit
+            res.violate(PROP, "post-crash-load", f"{icls}:{lres}{how}",
                         f"session mode: crash at raw op {k}/{nops}: image {len(image) if image is not None else None} bytes; "
                         f"loaded {o} {v!r}; stop_at={scn['stop_at']}; replay with points=[[{k}, null]]"[:600])
         res.probes["crash_points"] += len(points)
